@@ -22,5 +22,6 @@ pub fn fix_env() {
     std::env::set_var("CLAPMC_DELIM", "a,b");
     std::env::set_var("CLAPMC_TRUE", "true");
     std::env::set_var("CLAPMC_X", "x");
+    std::env::set_var("CLAPMC_COUNT", "3");
     std::env::remove_var("CLAPMC_UNSET");
 }
